@@ -119,6 +119,20 @@ def apalache_lemma(chk):
                                           "outcome": "NoError", "wall_s": round(time.time() - t, 1)}
 
 
+def no_panics(chk, jobs, results):
+    """a conversion / comparison that panics is a verdict of its own (the safe-integer types reject with an error, they never panic); the
+    job is left out of the other judgements. -> [(job, result)] of the jobs that ran to the end"""
+    keep = []
+    for j, r in zip(jobs, results):
+        if r.get("status") == "panic":
+            chk.judged(("panic", j["v"]))
+            chk.mismatch(f"C18/panic/{boundary_class(int(j['v']))}", f"a constructor / conversion / comparison of the safe-integer types panics on {j['v']}"
+                         + (f" (with {j['w']})" if "w" in j else "") + f": {r.get('panic', '')[:120]}", {k: j[k] for k in ("v", "w") if k in j}, "Ok or Err", "panic")
+        else:
+            keep.append((j, r))
+    return keep
+
+
 def run(chk):
     thorough = chk.tier == "thorough"
     radius = 4096 if thorough else 64
@@ -139,7 +153,11 @@ def run(chk):
     for i, c in enumerate(cases):
         jobs.append({"id": i, "v": str(to_int(c["neg"], c["l"])), "w": str(to_int(c["w_neg"], c["w_l"]))})
     for part_c, part_j in zip(common.chunks(cases, 100000), common.chunks(jobs, 100000)):
-        for c, j, r in zip(part_c, part_j, common.run_driver("safeint", part_j)):
+        res_j = common.run_driver("safeint", part_j)
+        done = {j["id"] for j, _ in no_panics(chk, part_j, res_j)}
+        for c, j, r in zip(part_c, part_j, res_j):
+            if j["id"] not in done:
+                continue
             v = int(j["v"])
             judge(chk, v, c["expect"], observe(v, r))
             for k in ("u53_cmp", "i54_cmp"):
@@ -178,11 +196,16 @@ def run(chk):
     jobs = [{"id": i, "v": str(v)} for i, v in enumerate(vals)] + \
            [{"id": len(vals) + i, "v": str(a), "w": str(b)} for i, (a, b) in enumerate(pairs)]
     results = common.run_driver("safeint", jobs)
+    no_panics(chk, jobs, results)
     events, meta = [], []
     for v, r in zip(vals, results[:len(vals)]):
+        if r.get("status") == "panic":
+            continue
         events.append({"ev": "value", "neg": v < 0, "l": limbs(v), "obs": observe(v, r)})
         meta.append(("value", v, r))
     for (a, b), r in zip(pairs, results[len(vals):]):
+        if r.get("status") == "panic":
+            continue
         for k in ("u53_cmp", "i54_cmp"):
             if k in r:
                 events.append({"ev": "cmp", "neg": a < 0, "l": limbs(a), "w_neg": b < 0, "w_l": limbs(b), "cmp": r[k],
@@ -223,6 +246,9 @@ def replay(chk, rec):
     if "w" in c:
         job["w"] = c["w"]
     r = common.run_driver("safeint", [job])[0]
+    if not no_panics(chk, [job], [r]):
+        chk.mismatches = {k: v for k, v in chk.mismatches.items() if k == rec["signature"]}
+        return
     events = [{"ev": "value", "neg": v < 0, "l": limbs(v), "obs": observe(v, r)}]
     if "w" in c:
         w = int(c["w"])
